@@ -764,3 +764,194 @@ Proof.
   rewrite w_fields_ok; [reflexivity| |assumption].
   rewrite Forall_forall in *. intros x Hx. apply write_canon; auto.
 Qed.
+
+(* ====================================================================================== *)
+(* typed values: the tree they denote is canonical and denotes the same bytes              *)
+(* ====================================================================================== *)
+Section TvalInd.
+  Variable P : tval -> Prop.
+  Hypothesis Hbool : forall b, P (TBool b).
+  Hypothesis Hbyte : forall z, P (TByte z).
+  Hypothesis Hi16 : forall z, P (TI16 z).
+  Hypothesis Hi32 : forall z, P (TI32 z).
+  Hypothesis Hi64 : forall z, P (TI64 z).
+  Hypothesis Hdouble : forall b, P (TDouble b).
+  Hypothesis Hstring : forall s, P (TString s).
+  Hypothesis Hstruct : forall fs, Forall (fun p => P (snd p)) fs -> P (TStruct fs).
+  Hypothesis Hmap : forall kt vt kvs, Forall (fun p => P (fst p) /\ P (snd p)) kvs -> P (TMap kt vt kvs).
+  Hypothesis Hset : forall et l, Forall P l -> P (TSet et l).
+  Hypothesis Hlist : forall et l, Forall P l -> P (TList et l).
+
+  Fixpoint tval_ind' (v : tval) : P v :=
+    match v with
+    | TBool b => Hbool b | TByte z => Hbyte z | TI16 z => Hi16 z | TI32 z => Hi32 z | TI64 z => Hi64 z
+    | TDouble b => Hdouble b | TString s => Hstring s
+    | TStruct fs =>
+      Hstruct fs ((fix go (l : list (Z * tval)) : Forall (fun p => P (snd p)) l :=
+                     match l with
+                     | [] => Forall_nil _
+                     | p :: r => Forall_cons p (tval_ind' (snd p)) (go r)
+                     end) fs)
+    | TMap kt vt kvs =>
+      Hmap kt vt kvs ((fix go (l : list (tval * tval)) : Forall (fun p => P (fst p) /\ P (snd p)) l :=
+                         match l with
+                         | [] => Forall_nil _
+                         | p :: r => Forall_cons p (conj (tval_ind' (fst p)) (tval_ind' (snd p))) (go r)
+                         end) kvs)
+    | TSet et l =>
+      Hset et l ((fix go (l : list tval) : Forall P l :=
+                    match l with [] => Forall_nil _ | x :: r => Forall_cons x (tval_ind' x) (go r) end) l)
+    | TList et l =>
+      Hlist et l ((fix go (l : list tval) : Forall P l :=
+                     match l with [] => Forall_nil _ | x :: r => Forall_cons x (tval_ind' x) (go r) end) l)
+    end.
+End TvalInd.
+
+Lemma tree_of_ty id v : uf_ty (tree_of id v) = ttype v. Proof. destruct v; reflexivity. Qed.
+Lemma tree_of_id id v : uf_id (tree_of id v) = id. Proof. destruct v; reflexivity. Qed.
+
+Lemma int16_of_range i : in_signedb 16 (int16_of i) = true.
+Proof.
+  apply in_signedb_spec. unfold int16_of, i16. apply to_signed_range; [lia|].
+  rewrite p16. unfold two16. apply N.mod_lt. lia.
+Qed.
+
+Lemma len_mapi {A B} (f : N -> A -> B) : forall l i, len (mapi_from f i l) = len l.
+Proof. induction l as [|x xs IH]; intros i; [reflexivity|]. cbn [mapi_from]. rewrite !len_cons, IH. reflexivity. Qed.
+
+Section Canon.
+  Variables (id kt vt : Z).
+  Lemma canon_struct l : canon (UF id T_STRUCT kt vt (VFields l)) =
+    (in_signedb 16 id && ((kt =? 0)%Z && (vt =? 0)%Z && forallb canon l))%bool. Proof. reflexivity. Qed.
+  Lemma canon_map l : canon (UF id T_MAP kt vt (VFields l)) =
+    (in_signedb 16 id && (in_signedb 8 kt && in_signedb 8 vt && ((len l / 2 <? two32) && canon_pairs canon kt vt 0 l)))%bool.
+  Proof. reflexivity. Qed.
+  Lemma canon_set l : canon (UF id T_SET kt vt (VFields l)) =
+    (in_signedb 16 id && ((kt =? 0)%Z && in_signedb 8 vt && ((len l <? two32) && canon_elems canon vt 0 l)))%bool.
+  Proof. reflexivity. Qed.
+  Lemma canon_list l : canon (UF id T_LIST kt vt (VFields l)) =
+    (in_signedb 16 id && ((kt =? 0)%Z && in_signedb 8 vt && ((len l <? two32) && canon_elems canon vt 0 l)))%bool.
+  Proof. reflexivity. Qed.
+End Canon.
+
+Definition denotes (v : tval) : Prop :=
+  wf_val v = true -> forall id, in_signedb 16 id = true ->
+  canon (tree_of id v) = true /\ enc_tree (tree_of id v) = enc_val v.
+
+Lemma elems_denote et : forall l i,
+  Forall denotes l -> forallb (fun x => (ttype x =? et)%Z && wf_val x) l = true ->
+  canon_elems canon et i (mapi_from (fun i x => tree_of (int16_of i) x) i l) = true /\
+  concat (map enc_tree (mapi_from (fun i x => tree_of (int16_of i) x) i l)) = concat (map enc_val l).
+Proof.
+  induction l as [|x xs IH]; intros i Hd Hw; [split; reflexivity|].
+  pose proof (Forall_inv Hd) as Hx. pose proof (Forall_inv_tail Hd) as Hxs.
+  cbn [forallb] in Hw. apply andb_true_iff in Hw as [Hw Hws]. apply andb_true_iff in Hw as [Ht Hwx].
+  destruct (Hx Hwx (int16_of i) (int16_of_range i)) as [Hc He].
+  destruct (IH (i + 1) Hxs Hws) as [Hc' He'].
+  cbn [mapi_from canon_elems map concat]. rewrite tree_of_ty, tree_of_id, Ht, Z.eqb_refl, Hc, Hc', He, He'.
+  split; reflexivity.
+Qed.
+
+Lemma pairs_denote kt vt : forall l i,
+  Forall (fun p => denotes (fst p) /\ denotes (snd p)) l ->
+  forallb (fun p => (ttype (fst p) =? kt)%Z && wf_val (fst p) && (ttype (snd p) =? vt)%Z && wf_val (snd p)) l = true ->
+  let l' := concat (mapi_from (fun i p => [tree_of (int16_of i) (fst p); tree_of (int16_of i) (snd p)]) i l) in
+  canon_pairs canon kt vt i l' = true /\
+  concat (map enc_tree l') = concat (map (fun p => enc_val (fst p) ++ enc_val (snd p)) l) /\
+  len l' = 2 * len l.
+Proof.
+  induction l as [|p ps IH]; intros i Hd Hw; [repeat split; reflexivity|].
+  pose proof (Forall_inv Hd) as [Hk Hv]. pose proof (Forall_inv_tail Hd) as Hps.
+  cbn [forallb] in Hw. apply andb_true_iff in Hw as [Hw Hws].
+  apply andb_true_iff in Hw as [Hw Hwv]. apply andb_true_iff in Hw as [Hw Htv].
+  apply andb_true_iff in Hw as [Htk Hwk].
+  destruct (Hk Hwk (int16_of i) (int16_of_range i)) as [Hck Hek].
+  destruct (Hv Hwv (int16_of i) (int16_of_range i)) as [Hcv Hev].
+  destruct (IH (i + 1) Hps Hws) as (Hc' & He' & Hl').
+  cbn [mapi_from concat app canon_pairs map]. cbv zeta.
+  rewrite !tree_of_ty, !tree_of_id, Htk, Htv, !Z.eqb_refl, Hck, Hcv, Hc', Hek, Hev, He'.
+  repeat split; try reflexivity.
+  - now rewrite <- app_assoc.
+  - rewrite !len_cons, Hl'. lia.
+Qed.
+
+Lemma fields_denote : forall fs,
+  Forall (fun p => denotes (snd p)) fs -> forallb (fun p => in_signedb 16 (fst p) && wf_val (snd p)) fs = true ->
+  forallb canon (map (fun p => tree_of (fst p) (snd p)) fs) = true /\
+  concat (map enc_tree_field (map (fun p => tree_of (fst p) (snd p)) fs)) =
+  concat (map (fun p => enc (IFieldBegin (ttype (snd p)) (fst p)) ++ enc_val (snd p)) fs).
+Proof.
+  induction fs as [|p ps IH]; intros Hd Hw; [split; reflexivity|].
+  pose proof (Forall_inv Hd) as Hp. pose proof (Forall_inv_tail Hd) as Hps.
+  cbn [forallb] in Hw. apply andb_true_iff in Hw as [Hw Hws]. apply andb_true_iff in Hw as [Hid Hwp].
+  destruct (Hp Hwp (fst p) Hid) as [Hc He]. destruct (IH Hps Hws) as [Hc' He'].
+  cbn [map forallb concat]. unfold enc_tree_field at 1. rewrite tree_of_ty, tree_of_id, Hc, Hc', He, He'.
+  split; reflexivity.
+Qed.
+
+Lemma val_denotes : forall v, denotes v.
+Proof.
+  induction v as [b|z|z|z|z|b|s|fs IH|kt vt kvs IH|et l IH|et l IH] using tval_ind'; intros Hw id Hid;
+    cbn [wf_val] in Hw; cbn [tree_of enc_val].
+  - cbn [canon]. rewrite Hid. split; reflexivity.
+  - cbn [canon]. rewrite Hid, Hw. split; reflexivity.
+  - cbn [canon]. rewrite Hid, Hw. split; reflexivity.
+  - cbn [canon]. rewrite Hid, Hw. split; reflexivity.
+  - cbn [canon]. rewrite Hid, Hw. split; reflexivity.
+  - cbn [canon]. rewrite Hid, Hw. split; reflexivity.
+  - cbn [canon]. rewrite Hid. apply andb_true_iff in Hw as [H1 H2]. rewrite H1, H2. split; reflexivity.
+  - destruct (fields_denote fs IH Hw) as [Hc He].
+    rewrite canon_struct, enc_tree_struct, Hid, Hc, He. split; reflexivity.
+  - apply andb_true_iff in Hw as [Hw Hall]. apply andb_true_iff in Hw as [Hw Hlen].
+    apply andb_true_iff in Hw as [Hkt Hvt].
+    destruct (pairs_denote kt vt kvs 0 IH Hall) as (Hc & He & Hl).
+    rewrite canon_map, enc_tree_map, Hid, Hkt, Hvt, Hc, He, Hl.
+    replace (2 * len kvs / 2) with (len kvs) by (rewrite N.mul_comm, N.div_mul; lia).
+    rewrite Hlen. split; reflexivity.
+  - apply andb_true_iff in Hw as [Hw Hall]. apply andb_true_iff in Hw as [Het Hlen].
+    destruct (elems_denote et l 0 IH Hall) as (Hc & He).
+    rewrite canon_set, enc_tree_set, Hid, Het, Hc, He, len_mapi, Hlen. split; reflexivity.
+  - apply andb_true_iff in Hw as [Hw Hall]. apply andb_true_iff in Hw as [Het Hlen].
+    destruct (elems_denote et l 0 IH Hall) as (Hc & He).
+    rewrite canon_list, enc_tree_list, Hid, Het, Hc, He, len_mapi, Hlen. split; reflexivity.
+Qed.
+
+Lemma fields_denote_top fs : wf_fields fs = true ->
+  canon_fields (tree_of_fields fs) = true /\ enc_tree_fields (tree_of_fields fs) = enc_fields fs.
+Proof.
+  intros Hw. unfold canon_fields, tree_of_fields, enc_tree_fields, enc_fields.
+  apply fields_denote; [|exact Hw].
+  apply Forall_forall. intros p _. apply val_denotes.
+Qed.
+
+(* ====================================================================================== *)
+(* C13                                                                                     *)
+(* ====================================================================================== *)
+Lemma tree_bytes_tree ts : ts <> [] -> canon_fields ts = true ->
+  let b := enc_tree_fields ts in
+  fields_len ts = Ok (len b) /\
+  (forall buf, len b <= len buf -> write_fields buf ts = Ok (b ++ drop (len b) buf, len b)) /\
+  convert b = Ok ts.
+Proof.
+  intros Hne Hc b. split; [exact (fields_len_canon ts Hc)|]. split.
+  - intros buf Hfit. exact (write_fields_canon ts buf Hc Hfit).
+  - exact (convert_canon ts Hne Hc).
+Qed.
+
+Lemma tree_of_fields_nonempty fs : fs <> [] -> tree_of_fields fs <> [].
+Proof. destruct fs; [congruence|discriminate]. Qed.
+
+Lemma bytes_tree_bytes fs : fs <> [] -> wf_fields fs = true ->
+  let b := enc_fields fs in
+  let t := tree_of_fields fs in
+  convert b = Ok t /\ canon_fields t = true /\ fields_len t = Ok (len b) /\
+  (forall buf, len b <= len buf -> write_fields buf t = Ok (b ++ drop (len b) buf, len b)).
+Proof.
+  intros Hne Hw b t. destruct (fields_denote_top fs Hw) as [Hc He].
+  destruct (tree_bytes_tree t (tree_of_fields_nonempty fs Hne) Hc) as (Hl & Hwr & Hcv).
+  unfold t in *. rewrite He in *. fold b in Hl, Hwr, Hcv. auto.
+Qed.
+
+Lemma d9_without_reset_refuted :
+  convert_gen false (enc_tree_fields (tree_of_fields d9_value)) <> Ok (tree_of_fields d9_value).
+Proof. vm_compute. discriminate. Qed.
